@@ -49,6 +49,23 @@ RECURSIVE EncKeysNaive(_)
 EncKeysNaive(p) == IF Len(p) = 1 THEN EncKeyNaive(p[1]) ELSE EncKeyNaive(p[1]) \o <<COMMA, SP>> \o EncKeysNaive(Tail(p))
 EncNaive(p) == <<LB>> \o EncKeysNaive(p) \o <<RB>>
 
+\* non-ASCII text.  json.dumps(ensure_ascii=True) writes every character >= 128 as a \uXXXX escape and an astral character as
+\* the two escapes of its surrogate pair; json.loads joins an escaped high surrogate followed by an escaped low surrogate
+\* into the astral character.  A Python str may hold LONE surrogates, so the 2-character key <<HI, LO>> and the 1-character
+\* key <<AST>> are different keys with the same escaped text: the named deviation "EscapeNonAscii" (D10).  Enc above
+\* (ensure_ascii=False, the repaired code) writes such characters raw.   Codes: HI = 200, LO = 201, AST = 202, U = 117.
+HI == 200    LO == 201    AST == 202    U == 117
+RECURSIVE EscA(_)
+EscA(s) == IF s = <<>> THEN <<>>
+           ELSE (CASE Head(s) = Q \/ Head(s) = BS -> <<BS, Head(s)>>
+                   [] Head(s) = HI \/ Head(s) = LO -> <<BS, U, Head(s)>>
+                   [] Head(s) = AST -> <<BS, U, HI, BS, U, LO>>
+                   [] OTHER -> <<Head(s)>>) \o EscA(Tail(s))
+EncKeyAscii(k) == IF k.t = "s" THEN <<Q>> \o EscA(k.v) \o <<Q>> ELSE k.v
+RECURSIVE EncKeysAscii(_)
+EncKeysAscii(p) == IF Len(p) = 1 THEN EncKeyAscii(p[1]) ELSE EncKeyAscii(p[1]) \o <<COMMA, SP>> \o EncKeysAscii(Tail(p))
+EncAscii(p) == <<LB>> \o EncKeysAscii(p) \o <<RB>>
+
 InjectiveOn(P, E(_)) == Cardinality({E(p) : p \in P}) = Cardinality(P)
 
 \* ---- OptimizerModule object graphs ---------------------------------------------------------------
